@@ -208,6 +208,22 @@ func (d *dumper) walk(v reflect.Value) {
 			d.walk(c)
 		}
 	case reflect.Struct:
+		// sync/atomic.Pointer[T] keeps its target behind an unsafe.Pointer: follow it as a *T, so that
+		// lock-free private state (a published hint, a snapshot) is part of the rendering
+		if t := v.Type(); t.PkgPath() == "sync/atomic" && strings.HasPrefix(t.Name(), "Pointer[") && t.NumField() == 3 {
+			if ft := t.Field(0).Type; ft.Kind() == reflect.Array && ft.Elem().Kind() == reflect.Pointer {
+				p := access(v.Field(2))
+				if p.Kind() == reflect.UnsafePointer {
+					d.sb.WriteString("atomic.Pointer->")
+					if p.Pointer() == 0 {
+						d.sb.WriteString("nil")
+					} else {
+						d.walk(reflect.NewAt(ft.Elem().Elem(), unsafe.Pointer(p.Pointer())))
+					}
+					return
+				}
+			}
+		}
 		if v.CanAddr() {
 			// register the struct's own address so interior pointers to it
 			// (e.g. &list.root, &dlist.DoubleNode) resolve to one identity.
